@@ -109,7 +109,15 @@ MUTANTS = {
         ('src/app/outfmt/csv.rs', '        for err in &table_model.errors {\n            let mut err_record = Vec::<String>::with_capacity(n_cols);\n            err_record.resize(n_cols, String::new());\n            err_record[0] = format!("[!] {}", err);\n            csv_w.write_record(err_record).map_err(|e| e.to_string())?;\n        }\n', '')]),
     'c04_err_msg_not_attached': ('C04', ['err_msg-pushed-to-table-errors'], [
         ('src/app/approot.rs', '            table_model.errors.push(e.err_msg.clone());', '            tracing::warn!("{}", e.err_msg);')]),
+    'c04_split_factor_first': ('C04', ['R4e|split-balance-exact-when-whole'], [
+        ('src/portfolio/bookkeeping/delta_list.rs', '            new_share_balance = (pre_tx_status.share_balance\n                * split_specs.ratio.post_split.into())\n            .div(split_specs.ratio.pre_split);',
+         '            new_share_balance = pre_tx_status.share_balance\n                * split_specs.ratio.pre_to_post_factor().into();')]),
     # ------------------------------------------------------------------ C05
+    'c05_exact_decimal_assert': ('C05', ['R5d|portfolio::bookkeeping::portfolio_status::AffiliatePortfolioSecurityStatuses::set_latest_post_status'], [
+        ('src/portfolio/bookkeeping/portfolio_status.rs', '        assert!(all_share_bal_diff < rust_decimal_macros::dec!(0.0000000001),', '        assert!(all_share_bal_diff == rust_decimal::Decimal::ZERO,')]),
+    'c05_parallel_vectors_indexed': ('C05', ['R5c|peripheral::broker::etrade::parse_eso_data'], [
+        ('src/peripheral/broker/etrade.rs', '    for (((((_, num), fmv), shares), s_price), fee) in grant_indicies\n        .iter()\n        .zip(grant_numbers)\n        .zip(grant_exercise_fmvs)\n        .zip(grant_shares_exercised)\n        .zip(grant_sale_prices)\n        .zip(grant_fees)\n    {\n        grants.push(EsoGrantData {\n            grant_number: num,\n            exercise_fmv: fmv,\n            shares_exercised: shares,\n            sale_price: s_price,\n            fee: fee,\n        });',
+         '    for i in 0..grant_indicies.len() {\n        grants.push(EsoGrantData {\n            grant_number: grant_numbers[i],\n            exercise_fmv: grant_exercise_fmvs[i],\n            shares_exercised: grant_shares_exercised[i],\n            sale_price: grant_sale_prices[i],\n            fee: grant_fees[i],\n        });')]),
     'c05_round_in_neg': ('C05', ['c_maybe_round_to_effective_cent', 'T=Neg'], [
         ('src/portfolio/bookkeeping/delta_list.rs', '        Some(sfl) => c_maybe_round_to_effective_cent(LessEqualZeroDecimal::from(\n            cap_loss.mul_pos(sfl.sfl_ratio.to_posdecimal()),\n        )),',
          '        Some(sfl) => LessEqualZeroDecimal::from(c_maybe_round_to_effective_cent(\n            cap_loss.mul_pos(sfl.sfl_ratio.to_posdecimal()),\n        )),')]),
@@ -129,6 +137,8 @@ MUTANTS = {
     'c06_flag_branches': ('C06', ['R6b|app::approot::run_acb_app_to_render_model'], [
         ('src/app/approot.rs', '    let default_gains = CumulativeCapitalGains::default();\n', '    let default_gains = CumulativeCapitalGains::default();\n    if render_full_dollar_values {\n        tracing::info!("full values");\n    }\n')]),
     # ------------------------------------------------------------------ C07
+    'c07_files_sorted': ('C07', ['files-read-in-the-order-given'], [
+        ('src/cmd.rs', '    for csv_name in args.csv_files {', '    let mut csv_files = args.csv_files;\n    csv_files.sort();\n    for csv_name in csv_files {')]),
     'c07_order_by_trade_date': ('C07', ['order-key-fields'], [
         ('src/portfolio/model/tx.rs', 'impl PartialOrd for Tx {\n    fn partial_cmp(&self, other: &Self) -> Option<std::cmp::Ordering> {\n        let date_cmp = self.settlement_date.cmp(&other.settlement_date);',
          'impl PartialOrd for Tx {\n    fn partial_cmp(&self, other: &Self) -> Option<std::cmp::Ordering> {\n        let date_cmp = self.trade_date.cmp(&other.trade_date);')]),
@@ -151,6 +161,10 @@ MUTANTS = {
         ('src/app/approot.rs', '        if let Ok(deltas) = &deltas_res.0 {\n            security_gains\n                .insert(sec.clone(), calc_security_cumulative_capital_gains(deltas));\n        }',
          '        let Ok(deltas) = &deltas_res.0 else {\n            break;\n        };\n        security_gains\n            .insert(sec.clone(), calc_security_cumulative_capital_gains(deltas));')]),
     # ------------------------------------------------------------------ C09
+    'c09_first_key_taken': ('C09', ['app::approot::write_render_result|consume|take'], [
+        ('src/app/approot.rs', '    let mut secs_with_errors = Vec::<Security>::new();\n    for sec in &secs {', '    let lead: usize = sec_render_tables.keys().take(1).map(|k| k.len()).sum();\n    tracing::trace!("{}", secs.len());\n    println!("{lead}");\n    let mut secs_with_errors = Vec::<Security>::new();\n    for sec in &secs {')]),
+    'c09_sort_by_length_only': ('C09', ['app::approot::write_render_result'], [
+        ('src/app/approot.rs', '    secs.sort();\n\n    let mut secs_with_errors', '    secs.sort_by_key(|s| s.len());\n\n    let mut secs_with_errors')]),
     'c09_unsorted_split_expansion': ('C09', ['portfolio::splits::replace_global_security_splits'], [
         ('src/portfolio/splits.rs', '    non_global_affiliates.sort_by(|a, b| a.id().cmp(b.id()));\n', '')]),
     'c09_sum_over_values': ('C09', ['portfolio::cumulative_gains::calc_cumulative_capital_gains'], [
